@@ -154,6 +154,11 @@ def run(pid, tier, seed, replay, t0):
             return mod.run_case(case, drv)
         except Infra:
             raise
+        except core.SkipCase as e:
+            res = core.Result(key=core.case_key(case))
+            res.nontrivial = False
+            res.features.append("skipped:" + str(e)[:60])
+            return res
         except Exception as e:  # noqa
             # an exception that escapes from the code under test at a place where the model (and the unchanged code) return
             # normally is a broken correspondence, not a harness fault; anything else is an infrastructure error
